@@ -121,6 +121,6 @@ def evaluate(case):
                          "T_abs=%s, yet removing its timeout changes the run: %s ; verdicts "
                          "%s vs %s" % (sid, last['t'], tabs, diff[:4], va, vb), context(ix))
     res.sample = dict(outcome=trace.outcome,
-                      expiries=[dict(sched=sp['id'], T_abs=an['tau'], end=an['rex']['t'])
+                      expiries=[dict(sched=sp['id'], T_abs=an['tau'], end=an['rex']['t'] if an['rex'] else None)
                                 for sp, an in hits], twins=twins)
     return res
